@@ -39,7 +39,7 @@ def run(repo, harnesses, jobs=8, timeout=3000, playback=False, fmt="terse", name
     try:
         fcntl.flock(lock, fcntl.LOCK_EX)
         src = os.path.join(scratch, "repo")
-        subprocess.check_call(["rsync", "-a", "--exclude", "target", "--exclude", ".git", repo.rstrip("/") + "/", src + "/"])
+        subprocess.check_call(["rsync", "-a", "--no-times", "--exclude", "target", "--exclude", ".git", repo.rstrip("/") + "/", src + "/"])
         cmd = ["cargo", "kani", "--target-dir", os.path.join(CACHE, "kani-target"), "-Z", "function-contracts", "-Z", "stubbing",
                "--output-format", fmt] + (["-j", str(jobs)] if fmt == "terse" else [])
         if playback:
@@ -161,7 +161,7 @@ def replay(repo, harness, timeout=1500):
         fcntl.flock(lock, fcntl.LOCK_EX)
         src = os.path.join(scratch, "repo")
         kdir = os.path.join(scratch, "kani")
-        subprocess.check_call(["rsync", "-a", "--exclude", "target", "--exclude", ".git", repo.rstrip("/") + "/", src + "/"])
+        subprocess.check_call(["rsync", "-a", "--no-times", "--exclude", "target", "--exclude", ".git", repo.rstrip("/") + "/", src + "/"])
         shutil.copytree(os.path.join(VERIF, "kani"), kdir)
         env = dict(os.environ, CARGO_NET_OFFLINE="true")
         cmd = ["cargo", "kani", "--target-dir", os.path.join(CACHE, "kani-target"), "-Z", "function-contracts", "-Z", "stubbing",
